@@ -9,7 +9,8 @@
 (*     was called after the iteration ended;                               *)
 (*   - it never yields a value that some operation, which returned before  *)
 (*     the iteration began, had already replaced or removed;               *)
-(*   - at quiescence the reported size equals the number of keys found.    *)
+(*   - at quiescence the reported size equals the number of keys found;    *)
+(*   - the update function of every filler Compute ran exactly once.       *)
 (***************************************************************************)
 EXTENDS Integers, Sequences, FiniteSets, TLC, Json, IOUtils
 Recs == ndJsonDeserialize(IOEnv.VERIF_TRACE)
@@ -48,6 +49,7 @@ Check(r, idx) ==
         RECURSIVE allRanges(_)
         allRanges(g) == IF g > Len(r.ranges) THEN <<>> ELSE rangeDevs(g) \o allRanges(g + 1)
     IN (IF r.diag # "" THEN <<F(idx, "C15.abnormal_end", r.diag)>> ELSE <<>>)
+       \o (IF r.churnnc # 0 THEN <<F(idx, "C15.update_not_once", r.churnnc)>> ELSE <<>>)
        \o (IF r.diag = "" /\ r.size # r.present THEN <<F(idx, "C15.size", <<r.size, r.present>>)>> ELSE <<>>)
        \o allRanges(1)
 
